@@ -781,6 +781,7 @@ func (X *Exec) applyContract(fr *Frame, st *State, fs *FuncSpec, callee *ssa.Fun
 			}
 		}
 	}
+	nens := 0
 	for _, e := range fs.Ensures {
 		if foreignInts {
 			break
@@ -790,6 +791,12 @@ func (X *Exec) applyContract(fr *Frame, st *State, fs *FuncSpec, callee *ssa.Fun
 		}
 		post.What = fmt.Sprintf("%s:%d", e.File, e.Line)
 		st.assume(ts, post.EvalBool(e.Expr))
+		nens++
+	}
+	if nens > 0 && !X.probe && !X.LockOnly && X.scratchDepth == 0 && !st.Dead {
+		// vacuity guard: a contract whose postconditions contradict the caller's state (a wrong frame, an
+		// inconsistent clause) would kill this path and make everything after the call vacuously true
+		X.Obls = append(X.Obls, &Obligation{Fn: X.TopKey, Kind: "cover", Pos: X.pos(pos), Desc: "the contract of " + fs.Key + " leaves a satisfiable state at this call", Hyp: st.PC, PreHyp: old.PC, Goal: ts.True(), WantSat: true})
 	}
 	return res
 }
